@@ -904,7 +904,7 @@ def tie_gates(ctx, rows):
                     real = "opaque"
                 else:
                     ops_txt, outs = read_probe(g, "p", row["params"])
-                    outs_q = [o for o in outs.split() if o.startswith("q")]
+                    outs_q = [o for o in outs.split() if o[:1] == "q" and o[1:].isdigit()]  # caller lines only
                     real = ops_txt + " -> " + " ".join(outs_q)
             except WiringError as e:
                 real = "wiring-unreadable:" + str(e)
@@ -915,7 +915,7 @@ def tie_gates(ctx, rows):
                     feed.unload(mod)
         if opaque or (row["modl"], row["name"]) in ORACLE_OPAQUE and real == "opaque":
             ctx.count(key, nontrivial=False, kind="opaque:" + real.split(":")[0])
-            if real != "opaque":
+            if real not in ("opaque", "unprobed"):
                 ctx.broke(f"opaque row {key} does not lower: {real}")
             continue
         orc = oracle_ops(row, perm) + " -> " + " ".join(oracle_outs(row, perm))
@@ -1063,7 +1063,7 @@ def tie_angles(ctx):
     from guppylang_internals.engine import DEF_STORE
 
     A = _load_std()["angles"]
-    impls = DEF_STORE.impls.get(A.angle.id, {})
+    impls = {k: v for k, v in DEF_STORE.impls.get(A.angle.id, {}).items() if k != "__new__"}  # struct constructor
     # coverage of the method set (a new / removed operator is noticed)
     if set(impls) != set(ANGLE_METHODS):
         ctx.broke(f"angle methods in std/angles.py {sorted(impls)} differ from the modelled set {sorted(ANGLE_METHODS)}")
